@@ -5,12 +5,12 @@ use cgmath::prelude::*;
 use cgmath::{Basis2, Basis3, Decomposed, Matrix2, Matrix3, Matrix4, Point2, Point3, Quaternion, Vector2, Vector3};
 use num_traits::Float;
 
-use crate::clause;
-use crate::conv::*;
-use crate::fw::{Case, Clause};
-use crate::gen::{self, Rng, Tier};
-use crate::model::*;
-use crate::sc::{Ck, Rat, Sc};
+use cgv_core::clause;
+use cgv_core::conv::*;
+use cgv_core::fw::{Case, Clause};
+use cgv_core::gen::{self, Rng, Tier};
+use cgv_core::model::*;
+use cgv_core::sc::{Ck, Rat, Sc};
 
 fn radd(a: Rat, b: Rat) -> Rat {
     Rat::new(a.n * b.d + b.n * a.d, a.d * b.d)
@@ -28,15 +28,15 @@ fn g_view(rng: &mut Rng, tier: Tier) -> Case {
         c.class = 0;
         // exact orthonormal rational frame: rows of the rotation matrix of a unit rational quaternion
         let q = gen::unit_quat(rng, Tier::Quick);
-        let qq: [crate::q::Q; 4] = [
-            crate::q::Q::rat(q[0]),
-            crate::q::Q::rat(q[1]),
-            crate::q::Q::rat(q[2]),
-            crate::q::Q::rat(q[3]),
+        let qq: [cgv_core::q::Q; 4] = [
+            cgv_core::q::Q::rat(q[0]),
+            cgv_core::q::Q::rat(q[1]),
+            cgv_core::q::Q::rat(q[2]),
+            cgv_core::q::Q::rat(q[3]),
         ];
         let m = qmat(qq);
         let row = |r: usize| -> [Rat; 3] {
-            let f = |x: crate::q::Q| Rat::new(x.num() as i64, x.den() as i64);
+            let f = |x: cgv_core::q::Q| Rat::new(x.num() as i64, x.den() as i64);
             [f(m[0][r]), f(m[1][r]), f(m[2][r])]
         };
         let (s, u, f) = (row(0), row(1), row(2));
